@@ -80,7 +80,7 @@ let handle (lines : string list) : unit =
   let (cfg, trace) = split [] lines in
   let mode = ref "seq" and is_async = ref false and capacity = ref 0 and fixed = ref true in
   let hss = ref [] and ops = ref [] and thn = ref 0 and thm = ref 0 and thp = ref 0 in
-  let sec = ref 1700000000 and nsec = ref 123456789 and lossy = ref false in
+  let sec = ref 1700000000 and nsec = ref 123456789 and lossy = ref false and tick = ref 0 in
   List.iter (fun l -> match words l with
     | ["mode"; m] -> mode := m
     | "logger" :: "async" :: c :: _ -> is_async := true; capacity := int_of_string c
@@ -92,6 +92,7 @@ let handle (lines : string list) : unit =
     | "log" :: lv :: _ -> ops := !ops @ [`Log (int_of_string lv)]
     | ["threads"; n; m; p] -> thn := int_of_string n; thm := int_of_string m; thp := int_of_string p
     | "lossy" :: _ -> lossy := true
+    | ["tick"; d] -> tick := int_of_string d
     | ["modelfixed"; b] -> fixed := (b = "1")
     | _ -> ()) cfg;
   let hss = Array.of_list !hss in
@@ -172,7 +173,7 @@ let handle (lines : string list) : unit =
       for k = 0 to !thm - 1 do
         let level = thr_level t k in
         let payload = make_payload !thp t k in
-        let format f (_m : lmsg) = nlist (fmt_line (int_of_nat f) level (1000 + t) (100 + t) !sec !nsec payload) in
+        let format f (_m : lmsg) = nlist (fmt_line (int_of_nat f) level (1000 + t) (100 + t) (!sec + k * !tick) !nsec payload) in
         emit_all (sync_log format lv code_limit !fixed !lg (z_of_int level) (nat_of_int k) (nlist payload))
       done
     done;
@@ -211,6 +212,10 @@ let handle (lines : string list) : unit =
         | None -> "model thread is not enabled" in
       List.iter (fun l -> if !ok then begin
         match words l with
+        (* rotation of a rotating handler (fclose / fopen of its stream): harness-owned scheduling points
+           inside the handler's critical section; the model's stream is the concatenation of all files *)
+        | "E" :: _ :: "plain" :: ("fclose" | "fopen") :: _ -> print_endline l
+        | "R" :: _ :: "rotop" :: _ -> print_endline l
         | "E" :: t :: op :: cell :: _mo :: _a :: b :: c :: _ ->
           let r = step !st (nat_of_int (int_of_string t)) O in
           (match r with
@@ -244,7 +249,7 @@ let handle (lines : string list) : unit =
       Array.iteri (fun i q -> if q = p then hi := i) pos_of;
       let level = thr_level t k in
       let payload = make_payload !thp t k in
-      let line = nlist (fmt_line hss.(!hi).fmt level (1000 + t) (100 + t) !sec !nsec payload) in
+      let line = nlist (fmt_line hss.(!hi).fmt level (1000 + t) (100 + t) (!sec + k * !tick) !nsec payload) in
       let w = handler_write true code_limit line in
       let (hx, n) = cells_hex w.hw_out in
       let a = n / 2 in
